@@ -246,7 +246,6 @@ func recvIdentObj(call *ast.CallExpr, info *types.Info) types.Object {
 	return nil
 }
 
-
 // recoveredRegion finds, in a recover handler, the blocks entered only when the
 // recovered value is non-nil: the then-branch of `if e != nil`, or the
 // continuation of `if e == nil { return }`.
